@@ -35,7 +35,7 @@ def units(tier, seed):
         for tr in ('rows', 'cols', 'transpose', 'duprow', 'dupcol'):
             us.append({'name': f'relational {tr} {n}x{m}', 'fn': 'unit_rel', 'args': {'n': n, 'm': m, 'tr': tr},
                        'split': 6 if n * m >= 9 else 0})
-    us += _mk.inductive_units(tier) + _mk.skeleton_units(tier, seed, extra={'pad': 1})
+    us += _mk.inductive_units(tier) + _mk.skeleton_kernel_units(tier, seed) + _mk.skeleton_units(tier, seed, extra={'pad': 1}, wide=(tier != 'quick'))
     return _mk.order(us)
 
 
